@@ -398,6 +398,9 @@ func propC08(w *World, r *Report) {
 		}
 	}
 	r.Floor("N6", 1)
+	// N7: the raw-frame parsers exempt exactly the border from the zero-pixel (bad frame) test, so a border value
+	// can never reject a frame and thereby change recording boundaries
+	checkParsers(w, r, "N7")
 }
 
 type rowRef struct {
